@@ -74,6 +74,22 @@ class Snap:
                 "attrs": sorted(getattr(t.function, "__dict__", {})),
                 "marks": [m.name for m in t.markers],
             })
+        self.dump(session)
+
+    def pytask_execute_log_start(self, session):
+        self.dump(session)
+
+    def dump(self, session):
+        """A killed process cannot report: keep what is known so far in a side file."""
+        nodes = {}
+        dag = getattr(session, "dag", None)
+        if dag is not None:
+            for sig in dag.nodes:
+                n = dag.nodes[sig].get("node")
+                if n is not None and hasattr(n, "path"):
+                    nodes[sig] = n.path.name
+        root = session.config["root"]
+        (root / "snapshot.json").write_text(json.dumps({"tasks": self.tasks, "nodes": nodes}))
 
 
 def _child(root: str, cfg: dict, wfd: int, crash: dict | None):
@@ -87,6 +103,7 @@ def _child(root: str, cfg: dict, wfd: int, crash: dict | None):
         from _pytask.pluginmanager import hookimpl
         snap = Snap()
         Snap.pytask_collect_modify_tasks = hookimpl(trylast=True)(Snap.pytask_collect_modify_tasks)
+        Snap.pytask_execute_log_start = hookimpl(trylast=True)(Snap.pytask_execute_log_start)
         orig = B.get_plugin_manager
 
         def gpm():
@@ -94,10 +111,18 @@ def _child(root: str, cfg: dict, wfd: int, crash: dict | None):
             pm.register(snap)
             return pm
 
+        import engine_crash
+        rep = engine_crash.Reporter()
+        engine_crash.Reporter.pytask_execute_task_log_end = hookimpl(wrapper=True)(engine_crash.Reporter.pytask_execute_task_log_end)
+
+        def gpm():
+            pm = orig()
+            pm.register(snap)
+            pm.register(rep)
+            return pm
+
         B.get_plugin_manager = gpm
-        if crash:
-            import engine_crash
-            engine_crash.install(crash)
+        engine_crash.install(root, crash, None)
         kw = dict(cfg)
         if kw.get("max_failures") is None:
             kw.pop("max_failures", None)
@@ -136,8 +161,11 @@ def forked_build(root: Path, cfg: dict, crash: dict | None = None) -> dict:
     os.close(r)
     _, status = os.waitpid(pid, 0)
     data = b"".join(chunks)
+    snapf = Path(root) / "snapshot.json"
+    snap = json.loads(snapf.read_text()) if snapf.exists() else {}
+    snapf.unlink(missing_ok=True)
     if not data:
-        return {"killed": True, "status": status}
+        return {"killed": True, "status": status, "tasks": snap.get("tasks", []), "nodes": snap.get("nodes", {}), "reports": []}
     return json.loads(data)
 
 
@@ -161,6 +189,15 @@ def read_files(root: Path) -> dict:
             out[int(p.stem[1:])] = p.read_text()
         except ValueError:
             pass
+    return out
+
+
+def read_effects(root: Path) -> list:
+    p = root / "effects.log"
+    if not p.exists():
+        return []
+    out = [l.split() for l in p.read_text().splitlines()]
+    p.unlink()
     return out
 
 
